@@ -497,6 +497,49 @@ def confirm_selection(chk, chosen, names, label, problems):
     chk.violation('main:selection', 'solstat --toml with %s: %s' % (label, '; '.join(bad)), {'job': 'solstat', 'config': cfg, 'source': text, 'observed': (rep or '')[:300]})
 
 
+def native_path_choice(chk):
+    """the compiled binary for every combination of --path (absent / a directory / a missing directory / a regular file), a configured path
+    (absent / a directory / missing) and ./contracts (present / absent): only files of THE directory the property names may be listed -- the
+    --path argument if given, else the configured path, else ./contracts -- also when that directory cannot be read"""
+    text = 'pragma solidity 0.8.16;\ncontract Sel {\n    uint256 st; function w() public { st = 1; }\n}\n'
+    n = 0
+    for arg, cfgp, contracts in itertools.product(('none', 'dir', 'missing', 'file'), ('none', 'dir', 'missing'), (True, False)):
+        d = os.path.join(chk.native.dir, 'pc%d' % chk.native.n)
+        chk.native.n += 1
+        os.makedirs(d)
+        for sub, fname in (('argdir', 'FromArg.sol'), ('cfgdir', 'FromConfig.sol')) + ((('contracts', 'FromDefault.sol'),) if contracts else ()):
+            os.makedirs(os.path.join(d, sub))
+            open(os.path.join(d, sub, fname), 'w').write(text)
+        open(os.path.join(d, 'afile'), 'w').write(text)
+        cmd = [os.path.join(chk.world.build, 'solstat')]
+        if arg != 'none':
+            cmd += ['--path', {'dir': 'argdir', 'missing': 'no-such-dir', 'file': 'afile'}[arg]]
+        if cfgp != 'none':
+            open(os.path.join(d, 'cfg.toml'), 'w').write('path = "%s"\noptimizations = ["sstore"]\nvulnerabilities = []\nqa = []\n' % {'dir': 'cfgdir', 'missing': 'no-such-cfg-dir'}[cfgp])
+            cmd += ['--toml', 'cfg.toml']
+        p = subprocess.run(cmd, cwd=d, stdout=subprocess.PIPE, stderr=subprocess.PIPE, text=True)
+        chk.validated += 1
+        n += 1
+        rp = os.path.join(d, 'solstat_report.md')
+        rep = open(rp).read() if os.path.exists(rp) else ''
+        listed = set(re.findall(r'^- (From\w+\.sol):\d+$', rep, re.M))
+        named = 'arg' if arg != 'none' else ('cfg' if cfgp != 'none' else 'default')
+        readable = {'arg': arg == 'dir', 'cfg': cfgp == 'dir', 'default': contracts}[named]
+        want = {{'arg': 'FromArg.sol', 'cfg': 'FromConfig.sol', 'default': 'FromDefault.sol'}[named]} if readable else set()
+        bad = []
+        if listed - want:
+            bad.append('the report lists %s although the directory to analyse is %s%s' % (sorted(listed - want), {'arg': 'the --path argument', 'cfg': 'the configured path', 'default': './contracts'}[named],
+                                                                                     '' if readable else ' (which cannot be read)'))
+        if readable and (p.returncode != 0 or want - listed):
+            bad.append('exit status %d, findings of %s missing' % (p.returncode, sorted(want - listed)))
+        if bad:
+            chk.violation('main:analysed-directory', 'solstat with --path %s, configured path %s, ./contracts %s: %s' % (arg, cfgp, 'present' if contracts else 'absent', '; '.join(bad)),
+                          {'job': 'solstat_dirs', 'arg': arg, 'cfg': cfgp, 'contracts': contracts, 'observed': rep[:300], 'exit': p.returncode})
+        else:
+            chk.ok()
+    chk.sample({'analysed directory': '%d runs of the compiled binary: --path x configured path x ./contracts, readable or not' % n})
+
+
 def body(chk):
     chk.bounds = {'names': 'every name of the docs tables / README / Solstat.toml with a SYMBOLIC casing mask (all 2^len casings at once); unknown names: symbolic strings over [a-z0-9_ -], length <= 40',
                   'Opts::new': '--path / --toml / ./contracts present or not (8 combinations), per category the pattern list: empty, one of 3 known names, an unknown name, two names; path strings symbolic',
@@ -510,6 +553,7 @@ def body(chk):
     check_opts(chk, tables)
     check_main_order(chk)
     check_main_selection(chk)
+    native_path_choice(chk)
 
 
 if __name__ == '__main__':
